@@ -90,9 +90,38 @@ def generic_alpha(rep, a):
                 if np.abs(Cs - np.diag(sv)).max() > 1e-8 * max(sv.max(), 1):
                     found.append(("C09", "C09_Diagonalises", f"{cls.__name__} alpha=({ax},{ay}): score cross-covariance is not diag(singular values)",
                                   dict(kind="generic_alpha", alpha=[ax, ay], n=n, complex=cplx)))
-    rep.m_facts += nf
-    rep.traces += nf // 2
+    # Hilbert variants: the Hilbert model of real fields is the Complex model of their analytic signals
+    # (scipy.signal.hilbert, no padding), so every clause checked for the Complex models carries over
+    from scipy.signal import hilbert as _hilbert
+    nh = 0
+    for (n, px, py) in ((32, 4, 3), (40, 6, 5)):
+        t = np.arange(n)
+        Xr = np.stack([np.cos(2 * np.pi * (j + 1) * t / n + 0.3 * j) * (4 - 0.5 * j) for j in range(px)], axis=1) + 0.05 * rng.normal(size=(n, px))
+        Yr = np.stack([np.sin(2 * np.pi * (j + 1) * t / n + 0.1 * j) * (3 - 0.4 * j) for j in range(py)], axis=1) + 0.05 * rng.normal(size=(n, py))
+        Xr, Yr = Xr - Xr.mean(0), Yr - Yr.mean(0)
+        mkx = lambda A: xr.DataArray(A, dims=("time", "x"), coords=dict(time=t, x=np.arange(A.shape[1])))  # noqa: E731
+        mky = lambda A: xr.DataArray(A, dims=("time", "y"), coords=dict(time=t, y=np.arange(A.shape[1])))  # noqa: E731
+        for name, kw in (("MCA", {}), ("CCA", {}), ("CPCCA", dict(alpha=[0.5, 0.2]))):
+            H = getattr(xe.cross, "Hilbert" + name)(n_modes=2, use_pca=False, padding="none", solver="full", **kw).fit(mkx(Xr), mky(Yr), "time")
+            import warnings as _w
+            with _w.catch_warnings():
+                _w.simplefilter("ignore")
+                Cm = getattr(xe.cross, "Complex" + name)(n_modes=2, use_pca=False, solver="full", **kw).fit(mkx(_hilbert(Xr, axis=0)), mky(_hilbert(Yr, axis=0)), "time")
+            a_, b_ = H.data["singular_values"].values, Cm.data["singular_values"].values
+            nh += 1
+            if not np.allclose(a_, b_, rtol=1e-8):
+                found.append(("C09", "C09_HilbertIsComplexOfAnalyticSignal", f"Hilbert{name}: singular values {a_.tolist()} differ from Complex{name} of the analytic signals {b_.tolist()}",
+                              dict(kind="hilbert", fam=name, n=n)))
+            s1 = H.data["scores1"].transpose(H.sample_name, "mode").values
+            s2 = H.data["scores2"].transpose(H.sample_name, "mode").values
+            Cs = s1.conj().T @ s2 / (n - 1)
+            nh += 1
+            if np.abs(np.abs(np.diag(Cs)) - a_).max() > 1e-8 * max(a_.max(), 1) or np.abs(Cs - np.diag(np.diag(Cs))).max() > 1e-8 * max(a_.max(), 1):
+                found.append(("C09", "C09_Diagonalises", f"Hilbert{name}: score cross-covariance is not diag(singular values)", dict(kind="hilbert", fam=name, n=n)))
+    rep.m_facts += nf + nh
+    rep.traces += nf // 2 + nh // 2
     rep.extra["generic_alpha_cases"] = nf // 2
+    rep.extra["hilbert_cases"] = nh // 2
     return found
 
 
